@@ -11,6 +11,7 @@ import collections
 import hashlib
 import json
 import random
+import signal
 import time
 
 from . import canon as C
@@ -47,6 +48,20 @@ class PoolInterp(Interp):
         return r, s
 
     def abuse(self, obj):
+        # (runs inside run_program's own watchdog: the outer alarm is re-armed afterwards)
+        old = signal.signal(signal.SIGALRM, _probe_alarm)
+        prev = signal.alarm(4)
+        try:
+            self._abuse(obj)
+        except ProbeTimeout:
+            PROBE_STATS['abuse_timeouts'] += 1
+        finally:
+            signal.alarm(0)
+            signal.signal(signal.SIGALRM, old)
+            if prev:
+                signal.alarm(prev)
+
+    def _abuse(self, obj):
         r = self.abuse_rnd
         if len(self.pool) % 7 == 0:
             # endurance: many matching calls on one instance (use counters, auto-compilation thresholds)
@@ -123,6 +138,15 @@ class PoolClsInterp(K.ClsInterp):
         return r, m
 
 
+class ProbeTimeout(BaseException):
+    pass
+
+
+def _probe_alarm(signum, frame):
+    raise ProbeTimeout()
+
+
+PROBE_STATS = collections.Counter()
 PROBE_TEXT = 'ab a\nb 12 $x.(aB) -3.5|a'
 
 
@@ -133,12 +157,22 @@ def behaviour_differs(obj, text):
         c = _re.compile(text, _re.M | _re.S)
     except Exception:
         return ''
-    want = [m.group(0) for m in c.finditer(PROBE_TEXT)]
+    # nested quantifiers of deep random programs can backtrack for ages even on a short text: bounded, and a
+    # probe that does not finish is no verdict
+    old = signal.signal(signal.SIGALRM, _probe_alarm)
+    signal.alarm(2)
     try:
+        want = [m.group(0) for m in c.finditer(PROBE_TEXT)]
         got = obj.get_matches(PROBE_TEXT)
         has = obj.has_match(PROBE_TEXT)
+    except ProbeTimeout:
+        PROBE_STATS['timeouts'] += 1
+        return ''
     except Exception as e:
         return 'raised %s: %s on matching' % (type(e).__name__, e)
+    finally:
+        signal.alarm(0)
+        signal.signal(signal.SIGALRM, old)
     if got != want:
         return 'finds %r where its pattern finds %r' % (got[:6], want[:6])
     if has != bool(want):
@@ -329,7 +363,7 @@ def run_shard(ctx):
         'truncated': truncated, 'fingerprints': fps, 'text_fingerprints': textfp,
         'extra': {'fresh_vs_pooled_compared': compared, 'pool_objects': len(P.pool), 'pool_reuses': P.reused,
                   'pool_objects_changed': changed, 'abuse_ops': sum(P.abuses.values()),
-                  'behaviour_probes': probed, 'class_fresh_vs_pooled_compared': ccompared, 'class_pool_objects': len(PK.pool), 'class_pool_reuses': PK.reused},
+                  'behaviour_probes': probed, 'behaviour_probe_timeouts': PROBE_STATS['timeouts'], 'class_fresh_vs_pooled_compared': ccompared, 'class_pool_objects': len(PK.pool), 'class_pool_reuses': PK.reused},
     }
 
 
